@@ -514,25 +514,51 @@ func (c *Ctx) finishFrame(fr *frame) []Outcome {
 	return outs
 }
 
+func commonDepth(a, b *pcNode) int {
+	for depthOf(a) > depthOf(b) {
+		a = a.parent
+	}
+	for depthOf(b) > depthOf(a) {
+		b = b.parent
+	}
+	for a != b {
+		a, b = a.parent, b.parent
+	}
+	return depthOf(a)
+}
+
+// mergePaths merges the most closely related paths first (deepest common path-condition prefix), so that
+// complementary branch conditions cancel and the merged path condition stays a conjunction.
 func (c *Ctx) mergePaths(paths []*Path, live map[ssa.Value]bool) []*Path {
 	if len(paths) <= 1 {
 		return paths
 	}
-	var out []*Path
-	for _, p := range paths {
-		done := false
-		for i, q := range out {
-			if m := c.mergeTwo(q, p, live); m != nil {
-				out[i] = m
-				done = true
-				break
+	cur := append([]*Path(nil), paths...)
+	failed := map[[2]*Path]bool{}
+	for len(cur) > 1 {
+		bi, bj, bd := -1, -1, -1
+		for i := 0; i < len(cur); i++ {
+			for j := i + 1; j < len(cur); j++ {
+				if failed[[2]*Path{cur[i], cur[j]}] {
+					continue
+				}
+				if d := commonDepth(cur[i].st.pc, cur[j].st.pc); d > bd {
+					bi, bj, bd = i, j, d
+				}
 			}
 		}
-		if !done {
-			out = append(out, p)
+		if bi < 0 {
+			break
 		}
+		m := c.mergeTwo(cur[bi], cur[bj], live)
+		if m == nil {
+			failed[[2]*Path{cur[bi], cur[bj]}] = true
+			continue
+		}
+		cur[bi] = m
+		cur = append(cur[:bj], cur[bj+1:]...)
 	}
-	return out
+	return cur
 }
 
 func (c *Ctx) mergeTwo(a, b *Path, live map[ssa.Value]bool) *Path {
